@@ -176,10 +176,13 @@ def prop_resume(case, rec):
         return
     k = 1 + k % len(u.pops)
     a = guard(case, session.run_main, root, ['-r', 'T', '-s', 'f'] + fa, [(('before_pop', k), 'q')])
-    b = guard(case, session.run_main, root, ['-r', 'T', '-s', 'f', '--load'])
+    # flags given on the command line next to --load must not change anything: the session continues under the saved flags
+    lf = case.get('load_flags') or {}
+    la = (['--skip_brute'] if lf.get('skip_brute') else []) + (['--all_lower'] if lf.get('skip_case') else [])
+    b = guard(case, session.run_main, root, ['-r', 'T', '-s', 'f', '--load'] + la)
     both = flags['skip_brute'] and flags['skip_case']
     rec.case({'flags': flags, 'cut': k, 'U': len(u.pops)}, both or 'M' not in [s for s, _ in m['base']],
-             S.describe(m) + [f"resume_flags:{int(flags['skip_brute'])}{int(flags['skip_case'])}"], key=[m, flags, k])
+             S.describe(m) + [f"resume_flags:{int(flags['skip_brute'])}{int(flags['skip_case'])}"] + (['flags_next_to_load'] if la else []), key=[m, flags, k, lf])
     uset = Counter(u.pops)
     for p in b.pops:
         if p not in uset:
@@ -200,9 +203,11 @@ def prop_resume(case, rec):
 def resume_cases(draw):
     m = draw(S.rulesets(max_pt=40, markov=draw(st.sampled_from(['yes', 'yes', 'no'])), max_structs=3,
                         families=['count', 'float', 'tenths', 'dyadic'], rich_levels=True))
-    flags = draw(st.sampled_from([{'skip_brute': True, 'skip_case': False}, {'skip_brute': False, 'skip_case': True},
-                                  {'skip_brute': True, 'skip_case': True}]))
-    return {'model': m, 'flags': flags, 'cut': draw(st.integers(0, 30))}
+    combos = [{'skip_brute': True, 'skip_case': False}, {'skip_brute': False, 'skip_case': True}, {'skip_brute': True, 'skip_case': True},
+              {'skip_brute': False, 'skip_case': False}]
+    flags = draw(st.sampled_from(combos))
+    load_flags = draw(st.sampled_from([None, None] + combos[:3]))
+    return {'model': m, 'flags': flags, 'load_flags': load_flags, 'cut': draw(st.integers(0, 30))}
 
 
 def run_resume(rec, seed, shard, nshards, tier):
